@@ -5,6 +5,9 @@ then runs the given checks (default: the property in meta.json) against the scra
 reports which of them raise a VIOLATION. Writes <seed dir>/result.json. Removes the scratch worktree."""
 import json, os, subprocess, sys, shutil, tempfile
 ENV = dict(os.environ, GOFLAGS="-mod=mod", GOPROXY="off", GOSUMDB="off", GOTOOLCHAIN="local")
+# VERIF_ROOT: run the checks of a frozen copy of /verif (check, plan.json, known_findings.txt, harness/) so that the harness can
+# be worked on while a long batch of seeded changes is being confirmed
+ROOT = os.environ.get("VERIF_ROOT", "/verif")
 def sh(cmd, cwd=None, env=ENV, timeout=3000):
     p = subprocess.run(cmd, shell=True, cwd=cwd, env=env, stdout=subprocess.PIPE, stderr=subprocess.STDOUT, text=True, timeout=timeout)
     return p.returncode, p.stdout
@@ -60,14 +63,14 @@ def main():
         for p in props:
             if p == "none":
                 continue
-            rc, out = sh("./check %s quick" % p, cwd="/verif", env=dict(ENV, VERIF_REPO=wt))
+            rc, out = sh("./check %s quick" % p, cwd=ROOT, env=dict(ENV, VERIF_REPO=wt))
             lines = [l for l in out.splitlines() if l.startswith(("VIOLATION", "  key:", "KNOWN", "BROKEN", "INCONCLUSIVE", "BUILD"))]
             res["checks"][p] = {"exit": rc, "lines": lines[:12]}
     finally:
         sh("git -C /repo worktree remove --force %s" % wt)
         import hashlib
         tag = hashlib.sha1(wt.encode()).hexdigest()[:8]
-        sh("rm -rf /verif/harness/bin-%s /verif/harness/alt-%s.mod /verif/harness/alt-%s.sum /verif/work/*-%s" % (tag, tag, tag, tag))
+        sh("rm -rf %s/harness/bin-%s %s/harness/alt-%s.mod %s/harness/alt-%s.sum %s/work/*-%s" % (ROOT, tag, ROOT, tag, ROOT, tag, ROOT, tag))
         json.dump(res, open(os.environ.get("SEEDRUN_OUT") or os.path.join(d, "result.json"), "w"), indent=1)
     return res
 if __name__ == "__main__":
